@@ -93,12 +93,18 @@ OpsWithFrom == UNION {UNION {{Op(k, p, f) : f \in Ptrs} : p \in Ptrs} : k \in {"
 AllOps == OpsWithPath \cup OpsWithFrom \cup Respelled
 
 Benign == Op("add", "/other/a", "/other/a")
+CorePtrs == {"", "/publicKey", "/publicKey/0", "/publicKey/-", "/service", "/service/0", "/publicKeyX", "/services", "/public~1Key",
+             "/other", "/other/a", "x/service", "/verificationMethod", "/didDocument", "/\\u0070ublicKey", "//service"}
+CoreOp(o) == o.path \in CorePtrs /\ o.from \in CorePtrs
 
 Init == ops = <<>> /\ pkAltered = FALSE /\ svcAltered = FALSE /\ validated = TRUE
 
 Append1(o) ==
     /\ Len(ops) < MaxOps
     /\ Pairing = "benign" /\ Len(ops) = 1 => (o = Benign \/ ops[1] = Benign)
+    \* "core": lists of two are made of operations over the core pointers (or hold the harmless operation); single
+    \* operations range over everything
+    /\ Pairing = "core" /\ Len(ops) = 1 => (o = Benign \/ ops[1] = Benign \/ (CoreOp(o) /\ CoreOp(ops[1])))
     /\ ops' = Append(ops, o)
     /\ pkAltered' = (pkAltered \/ MayAlterPK(o))
     /\ svcAltered' = (svcAltered \/ MayAlterSvc(o))
